@@ -14,7 +14,7 @@ if os.path.join(REPO, "src") not in sys.path:
 import measured  # noqa: E402
 from measured import Dimension, Prefix, Unit  # noqa: E402
 
-FUND_IDX = {"L": 1, "T": 2, "M": 3, "TH": 4, "Q": 5, "N": 6, "J": 7, "B": 8}
+FUND_IDX = {"L": 1, "T": 2, "M": 3, "TH": 4, "Q": 5, "N": 6, "J": 7, "B": 8, "I": 8}
 
 
 def dimvec(dimension, fund=("L", "T", "M")):
